@@ -706,6 +706,74 @@ fn run_chunk(seed: &str, cat: &str, start: usize, end: usize, thorough: bool, ti
     r
 }
 
+/// Packages in which _Tables / _Columns list the catalog tables (or the string
+/// pool) themselves, with schemas other than the built-in ones.
+fn self_describing_catalogs() -> Vec<(String, Vec<u8>)> {
+    let mut out = Vec::new();
+    // type words as the library writes them
+    let int16_key = ColSpec::new("X", Ty::I16).key().type_word();
+    let int16 = ColSpec::new("X", Ty::I16).nullable().type_word();
+    let str_key = ColSpec::new("X", Ty::Str(64)).key().type_word();
+    let str_n = ColSpec::new("X", Ty::Str(0)).nullable().type_word();
+    let col = |t: &str, n: i32, name: &str, tw: i32| vec![Val::s(t), Val::Int(n), Val::s(name), Val::Int(tw)];
+    let variants: Vec<(&str, Vec<Vec<Val>>, Vec<&str>)> = vec![
+        ("_Tables with a second (key) column", vec![col("_Tables", 1, "Name", str_key), col("_Tables", 2, "Extra", int16_key)], vec!["_Tables"]),
+        ("_Tables with an integer name column", vec![col("_Tables", 1, "Name", int16_key)], vec!["_Tables"]),
+        ("_Columns with three columns", vec![col("_Columns", 1, "Table", str_key), col("_Columns", 2, "Number", int16_key), col("_Columns", 3, "Name", str_n)], vec!["_Columns"]),
+        ("_Columns with five columns", vec![col("_Columns", 1, "Table", str_key), col("_Columns", 2, "Number", int16_key), col("_Columns", 3, "Name", str_n), col("_Columns", 4, "Type", int16), col("_Columns", 5, "More", int16)], vec!["_Columns"]),
+        ("_Validation with two columns", vec![col("_Validation", 1, "Table", str_key), col("_Validation", 2, "Column", str_key)], vec![]),
+        ("_Validation with twelve columns", (1..=12).map(|i| col("_Validation", i, &format!("C{}", i), if i <= 2 { str_key } else { str_n })).collect(), vec![]),
+        ("_StringPool listed as a table", vec![col("_StringPool", 1, "K", int16_key)], vec!["_StringPool"]),
+        ("_StringData listed as a table", vec![col("_StringData", 1, "K", str_key)], vec!["_StringData"]),
+        ("rows for a table that is not in _Tables", vec![col("Ghost", 1, "K", int16_key)], vec![]),
+        ("a table in _Tables without columns", vec![], vec!["NoCols"]),
+    ];
+    for (desc, col_rows, table_rows) in variants {
+        let mut h = match Harness::create(0) {
+            Ok(h) => h,
+            Err(_) => continue,
+        };
+        let mut ops = vec![
+            Op::CreateTable { name: "T1".into(), cols: vec![ColSpec::new("K", Ty::I16).key(), ColSpec::new("S", Ty::Str(8)).nullable()] },
+            Op::Insert { table: "T1".into(), rows: vec![vec![Val::Int(1), Val::s("a")]] },
+        ];
+        // the built-in definition must be removed first where the key would collide
+        for r in &col_rows {
+            if let (Val::Str(t), Val::Int(n)) = (&r[0], &r[1]) {
+                ops.push(Op::Delete { table: "_Columns".into(), cond: Some(E::bin(Bin::And, E::bin(Bin::Eq, E::col("Table"), E::str(t)), E::bin(Bin::Eq, E::col("Number"), E::int(*n)))) });
+            }
+        }
+        if !col_rows.is_empty() {
+            ops.push(Op::Insert { table: "_Columns".into(), rows: col_rows.clone() });
+        }
+        for t in &table_rows {
+            ops.push(Op::Delete { table: "_Tables".into(), cond: Some(E::bin(Bin::Eq, E::col("Name"), E::str(t))) });
+            ops.push(Op::Insert { table: "_Tables".into(), rows: vec![vec![Val::s(t)]] });
+        }
+        let mut ok = true;
+        for op in &ops {
+            match h.apply(op) {
+                Outcome::Panic(_) => {
+                    ok = false;
+                    break;
+                }
+                _ => {}
+            }
+            if h.pkg.is_none() {
+                ok = false;
+                break;
+            }
+        }
+        if !ok {
+            continue;
+        }
+        if let Ok(bytes) = h.close_into_inner() {
+            out.push((desc.to_string(), bytes));
+        }
+    }
+    out
+}
+
 pub fn run(tier: Tier) -> i32 {
     let mut rep = Report::new("C09", tier, "fault_enumeration");
     rep.assume("corruptions are enumerated from valid seed files; unstructured random bytes (which almost never pass the container's header check) are outside the family and are not sampled");
@@ -766,6 +834,23 @@ pub fn run(tier: Tier) -> i32 {
             rep.violation(sig, format!("seed {} / {}: {}", j.0, desc, detail), json!({"kind":"c09","seed":j.0,"cat":j.1,"start":idx,"end":idx + 1,"thorough":thorough}));
         }
     }
+    // ---- files whose catalog describes the catalog tables themselves -----------
+    // (built through the public API: rows for _Tables/_Columns/_Validation/
+    // _StringPool in _Tables and _Columns); each gets the full battery
+    let selfdesc = self_describing_catalogs();
+    for (desc, bytes) in &selfdesc {
+        cases += 1;
+        let (op, vs) = exercise(bytes, true);
+        if op {
+            opened += 1;
+        } else {
+            refused += 1;
+        }
+        for (sig, detail) in vs {
+            rep.violation(format!("self-described-catalog:{}", sig), format!("{}: {}", desc, detail), json!({"kind":"c09-selfdesc","desc":desc}));
+        }
+    }
+    rep.set("self_describing_catalog_files", selfdesc.len());
     rep.set("evaluations", cases);
     rep.set("distinct_nontrivial", opened);
     rep.set("corrupted_files", cases);
@@ -774,13 +859,26 @@ pub fn run(tier: Tier) -> i32 {
     rep.set("cases_per_seed_and_category", serde_json::Value::Object(counts));
     rep.set("worker_processes", jobs.len());
     rep.set("exhaustive", true);
-    rep.set("rule", "4 seeds (empty installer; two tables + stream + full summary; 3-byte references without _Validation from the independent encoder; signed). Deviation 1: every cell of every catalog and user table x 8 bad values; every stream truncated to every length (<= 256 bytes, else every even length and the first/last 64), extended by 1..4 bytes, removed; every unsupported 16-bit code-page id (+5 supported) x both width bits in the pool header; every pool entry x 7 malformations; every property-set header field, name, offset, type (0..70) and string length x bad values; root class ids; every byte of seeds 1 and 2 x 4 patterns (thorough: all 255). Thorough deviation 2: all pairs over catalog cells and pool entries. Each file: open; read battery (all tables, filtered/projected selects, joins of every ordered table pair, summary, streams); every mutating operation of the menu + flush + reopen on a fresh open. Workers are subprocesses with a watchdog. distinct_nontrivial = corrupted files that still opened");
+    rep.set("rule", "10 packages whose catalog describes the catalog tables or the string pool themselves (built through the API), full battery. 4 seeds (empty installer; two tables + stream + full summary; 3-byte references without _Validation from the independent encoder; signed). Deviation 1: every cell of every catalog and user table x 8 bad values; every stream truncated to every length (<= 256 bytes, else every even length and the first/last 64), extended by 1..4 bytes, removed; every unsupported 16-bit code-page id (+5 supported) x both width bits in the pool header; every pool entry x 7 malformations; every property-set header field, name, offset, type (0..70) and string length x bad values; root class ids; every byte of seeds 1 and 2 x 4 patterns (thorough: all 255). Thorough deviation 2: all pairs over catalog cells and pool entries. Each file: open; read battery (all tables, filtered/projected selects, joins of every ordered table pair, summary, streams); every mutating operation of the menu + flush + reopen on a fresh open. Workers are subprocesses with a watchdog. distinct_nontrivial = corrupted files that still opened");
     rep.sample(json!({"seed":"tables","corruption":"table _Columns row 0 column 0 <- 0 (null table name)"}));
     rep.sample(json!({"seed":"tables","corruption":"pool entry 3 <- reference count 0 with text"}));
     rep.finish()
 }
 
 pub fn replay(doc: &serde_json::Value) {
+    if doc["kind"] == "c09-selfdesc" {
+        let want = doc["desc"].as_str().unwrap_or("");
+        for (desc, bytes) in self_describing_catalogs() {
+            if desc == want {
+                let (opened, vs) = exercise(&bytes, true);
+                println!("{}: opened={}", desc, opened);
+                for (sig, detail) in vs {
+                    println!("{} :: {}", sig, detail);
+                }
+            }
+        }
+        return;
+    }
     let seed = doc["seed"].as_str().unwrap_or("tables");
     let cat = doc["cat"].as_str().unwrap_or("struct");
     let start = doc["start"].as_u64().unwrap_or(0) as usize;
